@@ -527,13 +527,18 @@ def slice_bounds(sl, n):
             if v < 0:
                 return max(v + n, -1)
             return min(v, n - 1)
+        k = known(s_cmp("<", v, 0))
+        if k is True:
+            return k_max(v + n, -1)
+        if k is False:
+            return k_min(v, n - 1)
         return s_ite(s_cmp("<", v, 0), s_max(v + n, -1), s_min(v, n - 1))
     a = clipn(lo, n - 1)
     b = clipn(hi, -1)
     if st == -1:
-        ln = s_max(a - b, 0)
+        ln = k_max(a - b, 0)
     else:
-        ln = s_max(s_floordiv(a - b + (-st) - 1, -st), 0)
+        ln = k_max(s_floordiv(a - b + (-st) - 1, -st), 0)
     return a, st, ln
 
 
